@@ -197,6 +197,9 @@ def run(ctx):
                          ("slice", list(range(n))[1:], lambda t: t[1:]), ("reversed", list(range(n))[::-1], lambda t: t[::-1])]
                 perm = r.sample(range(n), n)
                 sels.append(("fancy", perm + perm[:1], lambda t: t[np.array(perm + perm[:1])]))
+                # selections of selections (concatenations of BAM selections are C04's clause and are driven there)
+                evens = [i for i in range(n) if i % 2 == 0]
+                sels.append(("nested", evens[::-1][:max(1, len(evens) - 1)], lambda t: t[np.arange(n) % 2 == 0][::-1][:max(1, len(evens) - 1)]))
                 # a filter that selects nothing still gives a BAM (header, reference list, no records)
                 sels.append(r.choice([("empty-mask", [], lambda t: t[np.zeros(n, dtype=bool)]), ("empty-slice", [], lambda t: t[n:]), ("empty-filter", [], lambda t: t[t.mapq > 300])]))
             for sname, idx, sel in sels:
